@@ -8,7 +8,7 @@ from vlib import impl
 from vlib import repairflow as rf
 
 RULE = ("Flow A: TLC runs the repair machine (scan step per action, look-back, product, check filter) on every walk of length "
-        "6..9 (9..11) of generated order-1 and order-2 graphs x every admissible single edit (pairs thorough), with and without the "
+        "6..8 (7..10) of generated order-1 and order-2 graphs x every admissible single edit (pairs thorough), with and without the "
         "check of the original, indel on (and off for substitutions), checking Recovers and DetectsIffNotWalk; every exported case "
         "is replayed into repair_dna: a result equal to the machine's inherits TLC's verdict, a differing one is judged on its own "
         "by Trace_Repair. Flow B: seeded walks of 40..200 nt on generated graphs of orders 2..4 with 1..4 spaced edits "
@@ -122,12 +122,32 @@ def flow_b(ctx, mine, n, salt, kinds=("edited",)):
             rec = {"start": start, "dna": s, "vt": vt, "indel": indel, "heap": heap}
             o = rf.run_repair(acc, start, s, k, vt, indel, heap)
             cases.append(rf.case_of(gi, rec, o, w=ww, es=es))
+    # conformance only: the public path_matching function with its (kind, position, nucleotide) annotations and look-up count
+    for gi, g in enumerate(graphs[:12], 1):
+        acc = impl.accessor(g["live"])
+        k = g["k"]
+        for _ in range(3):
+            v = cf.pick_start(rng, g["live"])
+            chunk = [rng.randrange(4) for _ in range(2 * k - 1)]
+            occ = rng.randrange(k)
+            indel = rng.choice([True, False])
+            r = impl.call(dsw.path_matching, impl.dna(chunk), acc, v, occ, has_indel=indel)
+            if r["out"] == "ok":
+                recs = [{"kind": a[0], "pos": int(a[1]), "nt": impl.NT.index(a[2]), "s": impl.undna(s_)} for a, s_ in r["value"][0]]
+                cases.append({"kind": "pm", "g": gi, "chunk": chunk, "prev": v, "occ": occ, "indel": indel, "records": recs, "visited": int(r["value"][1]),
+                              "start": v, "dna": chunk, "vt": [], "heap": 1, "w": [], "es": [], "out": "ok", "cands": [], "det": 0, "flag": False,
+                              "count": 0, "ticks": 0, "shape": True})
     got = rf.validate(ctx, graphs, cases, "repair_b_%d.json" % salt)
     ndiv = 0
     for i, c in enumerate(cases, 1):
         v = got[i]
         if v == ["precondition-false"]:
             ctx.vacuous += 1
+            continue
+        if c.get("kind") == "pm":
+            for cl in v:
+                if cl.startswith("conformance:"):
+                    ctx.divergence(cl, {"k": graphs[c["g"] - 1]["k"], "chunk": impl.dna(c["chunk"]), "prev": c["prev"], "occ": c["occ"]})
             continue
         if "note:edit-set-not-admissible" in v:
             ctx.vacuous += 1
